@@ -328,6 +328,79 @@ func cmEnclosingRange(f *kit.Func, n ast.Node) *ast.RangeStmt {
 	return best
 }
 
+// cmLiftStore gives the view of a store that the loop-based rules (R5, R7)
+// need when the insertion was moved out of the start loop into a helper: the
+// helper takes the key as a parameter, has exactly one call site in the package
+// (not a go statement) and that call passes a plain variable and lies in a
+// range loop of the caller. The lifted store names the caller, the caller's
+// key/value variables and the caller's loop; stmt stays the assignment in the
+// helper. A store that already lies in a loop, or that cannot be lifted (up to
+// three levels), is returned unchanged.
+func cmLiftStore(c *kit.Ctx, sto *cmStore) *cmStore {
+	cur := sto
+	for depth := 0; depth < 3 && cur.loop == nil; depth++ {
+		f := cur.f
+		arg := func(cf *kit.Func, call *ast.CallExpr, e ast.Expr) ast.Expr {
+			if e == nil {
+				return nil
+			}
+			if _, isID := ast.Unparen(e).(*ast.Ident); !isID {
+				return nil
+			}
+			o := kit.ObjOf(f.Info(), e)
+			ps := f.Params()
+			if len(ps) != len(call.Args) {
+				return nil
+			}
+			for i, p := range ps {
+				if types.Object(p) == o {
+					if _, isID := ast.Unparen(call.Args[i]).(*ast.Ident); isID && cmIsLocal(kit.ObjOf(cf.Info(), call.Args[i])) {
+						return call.Args[i]
+					}
+				}
+			}
+			return nil
+		}
+		var site *ast.CallExpr
+		var in *kit.Func
+		seen := map[*ast.CallExpr]bool{}
+		for _, cf := range c.P.Funcs("client") {
+			if cf.Body == nil {
+				continue
+			}
+			for _, call := range cf.AllCalls(true) {
+				if cf.CalleeFunc(call) == f && !seen[call] {
+					seen[call] = true
+					site, in = call, cf
+				}
+			}
+		}
+		// one call site, in the body proper of a declared function
+		if len(seen) != 1 || in.Lit != nil || in == f {
+			return sto
+		}
+		own := false
+		for _, call := range in.AllCalls(false) {
+			own = own || call == site
+		}
+		if !own {
+			return sto
+		}
+		if gs, isGo := c.P.Parent(in.File, site).(*ast.GoStmt); isGo && gs.Call == site {
+			return sto
+		}
+		key := arg(in, site, cur.key)
+		if key == nil {
+			return sto
+		}
+		cur = &cmStore{f: in, stmt: sto.stmt, key: key, val: arg(in, site, cur.val), loop: cmEnclosingRange(in, site)}
+	}
+	if cur.loop == nil {
+		return sto
+	}
+	return cur
+}
+
 // cmEnclosingClause returns the select clause of f whose body contains n.
 func cmEnclosingClause(f *kit.Func, n ast.Node) *ast.CommClause {
 	var best *ast.CommClause
